@@ -116,7 +116,25 @@ def run_plan(ctx, plans, tag="r"):
     if len(plans) > 1:
         env["C16_PLAN"] = json.dumps(plans[0])
         env["C16_PLANS"] = json.dumps(plans)
-    rc, out, err, to = common.run([ctx.tools.vm, "--isolate-ffi", ctx.nvm], timeout=40, cwd=ctx.dir, env=env)
+    # stdout / stderr go to files and only the VM process itself is waited for: a co-process that outlives the VM keeps
+    # the inherited stderr open, and waiting for a pipe to close would wait for that co-process too
+    fo = os.path.join(ctx.dir, "%s_%d.out" % (tag, os.getpid()))
+    fe = os.path.join(ctx.dir, "%s_%d.err" % (tag, os.getpid()))
+    to = False
+    with open(fo, "wb") as oh, open(fe, "wb") as eh:
+        pr = subprocess.Popen([ctx.tools.vm, "--isolate-ffi", ctx.nvm], cwd=ctx.dir, env=env, stdin=subprocess.DEVNULL, stdout=oh, stderr=eh,
+                              start_new_session=True)
+        try:
+            rc = pr.wait(timeout=40)
+        except subprocess.TimeoutExpired:
+            to = True
+            try:
+                os.killpg(pr.pid, 9)
+            except OSError:
+                pass
+            rc = pr.wait()
+    out = open(fo, "rb").read()
+    err = open(fe, "rb").read()
     logtxt = open(log).read() if os.path.exists(log) else ""
     fired = "INJECT" in logtxt
     pids = set()
@@ -166,6 +184,10 @@ def run_plan(ctx, plans, tag="r"):
                 os.kill(p, 9)
             except OSError:
                 pass
+    try:
+        os.killpg(pr.pid, 9)        # whatever is left of the session (nothing, on a correct tree)
+    except OSError:
+        pass
     return ("violation", "; ".join(problems), info) if problems else ("ok", "", info)
 
 
